@@ -14,8 +14,8 @@
      requests): for every pattern, every assignment of orbitals to its letters, every bra functional and
      determinant, the signed sum over the work list of Π δ · ⟨f| remaining operators |a,b⟩ is the matrix
      element of the requested pattern — after one step, one pass and the whole loop; a pass that rewrites
-     nothing leaves only normal-ordered entries                                   : C03_wick_step, C03_wick_loop,
-                                                                                    C03_wick_normal_form
+     nothing leaves only normal-ordered entries, and the fuel of the model always suffices
+                                                       : C03_wick_step, C03_wick_loop, C03_wick_normal_form, C03_wick_complete
   Element-by-element equality of every returned tensor with ⟨bra|pattern|ket⟩ (all orderings, ranks 1–4,
   transition quantities, both paths) is decided by the exact correspondence.
 -/
@@ -67,10 +67,13 @@ theorem C03_wick_normal_form (l : List WItem) (h : (processOne l).2 = false) :
     ∀ it ∈ (processOne l).1, isNormal it.ops = true :=
   processOne_done l h
 
-/-- the fuel of `wickNormalForm` is enough for every pattern the library accepts that was tried here
-    (all dagger placements of rank 2 in identity order): the result is normal ordered -/
-example : ([[false, false, true, true], [false, true, true, false], [true, false, false, true], [false, true, false, true]].all
-    (fun fl => (wickNormalForm (fl.zipIdx.map (fun x => (x.2, x.1)))).all (fun it => isNormal it.ops))) = true := by
-  decide
+/-- **the Wick driver is correct for every pattern** (spin-orbital requests): its result consists of normal-ordered
+    entries only (the loop terminates within its fuel: every pass lowers the number of inversions), and their signed,
+    delta-weighted sum is the matrix element of the requested pattern, for every orbital assignment, bra functional
+    and determinant -/
+theorem C03_wick_complete (ρ : Nat → Nat) (f : Nat → Nat → Int) (a b : Nat) (pattern : List (Nat × Bool)) :
+    (∀ c ∈ wickNormalForm pattern, isNormal c.ops = true) ∧
+    evalList ρ f a b (wickNormalForm pattern) = evalRes f (applyTerm (pattern.map (fun o => (ρ o.1, o.2))) a b) :=
+  ⟨wickNormalForm_normal pattern, C03_wick_loop ρ f a b pattern⟩
 
 end C03
